@@ -76,8 +76,106 @@ def h_policy(ctx, set_metadata, schema, existing, nrows, var_none=False):
     ctx.tag("written" + ("+dropped" if expect_drop else "") + ("+default" if expect_default else ""))
 
 
+def h_both_tables(ctx, set_metadata, node_schema, mut_schema, node_existing, mut_existing):
+    """Through get_modified_ts: the node and the mutation table are each treated by the policy
+    on their own (a refusal on one table must not affect the other)."""
+    from symx import load
+    from symx.dom import sym, Q
+    from checks.c01 import _StubTS
+    from checks import constrain
+    core = load.tsdate_module("core")
+    util = load.tsdate_module("util")
+    ts, ep, ec, fixed = constrain.structure("cat3")
+    n, nm = ts.num_nodes, ts.num_mutations
+    mean = np.empty(n, dtype=object)
+    var = np.empty(n, dtype=object)
+    for i in range(n):
+        mean[i], var[i] = sym(f"mn{i}", "nonneg"), sym(f"vr{i}", "nonneg")
+    mmean = np.array([sym(f"mmn{j}") for j in range(nm)], dtype=object)
+    mvar = np.array([sym(f"mvr{j}") for j in range(nm)], dtype=object)
+    log = []
+    self = object.__new__(core.EstimationMethod)
+    stub = _StubTS(ts, log)
+    self.ts = stub
+    self.time_units = "generations"
+    self.set_metadata = {"False": False, "None": None, "True": True}[set_metadata]
+    self.min_branch_length = sym("eps", "pos")
+    self.constr_iterations = 0
+    self.provenance_params = None
+    self.name = "variational_gamma"
+    tabs = {}
+    real_dump = stub.dump_tables
+
+    def existing(kind, cnt):
+        if kind == "other_keys":
+            return [{"name": f"n{i}"} for i in range(cnt)]
+        return None
+
+    class TP(mdstub.Table):
+        """recording metadata table that also carries the plain columns get_modified_ts uses"""
+
+    def dump_tables():
+        t = real_dump()
+        for nm_, cnt, sk, ex in (("nodes", n, node_schema, node_existing),
+                                 ("mutations", nm, mut_schema, mut_existing)):
+            old = getattr(t, nm_)
+            md = TP(sk, existing(ex, cnt), [], cnt)
+            for k, v in object.__getattribute__(old, "_cols").items():
+                setattr(md, k, v)
+            tabs[nm_] = md
+            setattr(t, nm_, md)
+        return t
+    stub.dump_tables = dump_tables
+    res = core.Results(mean, var, mmean, mvar, None, ts.mutations_node.copy(), None)
+    saved_schemas = (core.schemas.default_node_schema, core.schemas.default_mutation_schema)
+    core.schemas.default_node_schema = mdstub.Schema("permissive", [], "default_node")
+    core.schemas.default_mutation_schema = mdstub.Schema("permissive", [], "default_mutation")
+    warned = []
+    saved = core.logger.warning
+    core.logger.warning = lambda *a, **k: warned.append(a)
+    try:
+        with load.patched(util) as npx:
+            npx.fork_isclose = False
+            try:
+                self.get_modified_ts(res)
+            except Exception as e:
+                ctx.fail("no-exception", detail={"exception": repr(e)[:300]})
+                return
+    finally:
+        core.logger.warning = saved
+        core.schemas.default_node_schema, core.schemas.default_mutation_schema = saved_schemas
+    for nm_, sk, ex, cnt, mv in (("nodes", node_schema, node_existing, n, (mean, var)),
+                                 ("mutations", mut_schema, mut_existing, nm, (mmean, mvar))):
+        md = tabs[nm_]
+        rows = mdstub.written_rows(md)
+        can = sk == "permissive"
+        has_md = ex == "other_keys"
+        if self.set_metadata is False:
+            ctx.prove(f"both:{nm_}:untouched_when_off", rows is None and not md.log)
+            continue
+        if can or (not has_md and sk is None) or self.set_metadata is True:
+            ctx.prove(f"both:{nm_}:written", rows is not None and len(rows) == cnt)
+            if rows is not None and len(rows) == cnt:
+                for i, r in enumerate(rows):
+                    ctx.prove(f"both:{nm_}[{i}]:mn_vr", (Q.of(r.get("mn", -1)) == mv[0][i]) is True
+                              and (Q.of(r.get("vr", -1)) == mv[1][i]) is True)
+        else:
+            ctx.prove(f"both:{nm_}:left_untouched", rows is None
+                      and not [k for k, _ in md.log if k in ("drop_metadata", "set_schema")])
+    ctx.tag("both")
+    from symx.dom import choice
+    choice("pad_")
+
+
 def cases(tier):
     cs = []
+    for sm in ("False", "None", "True"):
+        for ns in (None, "permissive", "restrictive"):
+            for ms in (None, "permissive", "restrictive"):
+                for ne, me in ((None, None), ("other_keys", None), (None, "other_keys")):
+                    cs.append(Case(f"both:{sm}:{ns}:{ms}:{ne}:{me}", h_both_tables,
+                                   dict(set_metadata=sm, node_schema=ns, mut_schema=ms,
+                                        node_existing=ne, mut_existing=me)))
     for sm in ("False", "None", "True"):
         for schema in (None, "permissive", "restrictive", "struct_bad"):
             for existing in (None, "other_keys", "empty_dicts"):
@@ -110,7 +208,7 @@ def run(tier, seed, t0):
         "other fields when the schema can encode or nothing exists; refused with one warning "
         "when None and incompatible; metadata dropped + default schema when True; every row "
         "carries exactly the caller's mn/vr terms.",
-        functions=["tsdate.core.EstimationMethod.set_time_metadata"],
+        functions=["tsdate.core.EstimationMethod.set_time_metadata", "tsdate.core.EstimationMethod.get_modified_ts"],
         bounds={"rows": "0-3", "schemas": "none | permissive | rejecting (validation) | rejecting "
                 "(encoding)", "existing_metadata": "none | rows with other keys | empty dicts",
                 "set_metadata": "False | None | True", "posterior_var": "present | None"},
@@ -120,7 +218,7 @@ def run(tier, seed, t0):
                      "documented"],
         out_of_scope=["real struct/JSON codecs and byte-level packing (tskit C/Python code)"],
         validated=npx.validate(),
-        expect_tags=["off", "refused", "written", "written+dropped+default", "written+default"],
+        expect_tags=["off", "refused", "written", "written+dropped+default", "written+default", "both"],
         level="other",
     )
 
@@ -132,6 +230,8 @@ def replay(payload):
     import tsdate
     from symx import skeletons as SK
     kw = payload["case_kw"]
+    if payload["case"].startswith("both:"):
+        return _replay_both(kw)
     ts = SK.cat3()
     t = ts.dump_tables()
     schema = kw["schema"]
@@ -172,3 +272,51 @@ def replay(payload):
     untouched = nm.metadata.tobytes() == before.metadata.tobytes() and \
         nm.metadata_schema == before.metadata_schema
     return (not untouched), f"set_metadata=None incompatible: untouched={untouched}"
+
+
+def _replay_both(kw):
+    import tskit
+    import tsdate
+    from symx import skeletons as SK
+    ts = SK.cat3()
+    t = ts.dump_tables()
+
+    def prep(table, schema, existing, nrows):
+        if schema == "permissive":
+            table.metadata_schema = tskit.MetadataSchema.permissive_json()
+        elif schema == "restrictive":
+            table.metadata_schema = tskit.MetadataSchema(
+                {"codec": "json", "type": "object", "properties": {"name": {"type": "string"}},
+                 "additionalProperties": False})
+        if existing == "other_keys":
+            if schema is None:
+                table.packset_metadata([b"raw!" for _ in range(nrows)])
+            else:
+                table.packset_metadata([table.metadata_schema.validate_and_encode_row({"name": "ab"})
+                                        for _ in range(nrows)])
+    prep(t.nodes, kw["node_schema"], kw["node_existing"], t.nodes.num_rows)
+    prep(t.mutations, kw["mut_schema"], kw["mut_existing"], t.mutations.num_rows)
+    ts2 = t.tree_sequence()
+    sm = {"False": False, "None": None, "True": True}[kw["set_metadata"]]
+    out = tsdate.date(ts2, mutation_rate=1.0, set_metadata=sm)
+    bad = []
+    for name, schema, existing in (("nodes", kw["node_schema"], kw["node_existing"]),
+                                   ("mutations", kw["mut_schema"], kw["mut_existing"])):
+        before, after = getattr(ts2.tables, name), getattr(out.tables, name)
+        can = schema == "permissive" or (schema is None and existing != "other_keys")
+        rows = list(out.nodes()) if name == "nodes" else list(out.mutations())
+        try:
+            written = all(isinstance(r.metadata, dict) and "mn" in r.metadata and "vr" in r.metadata
+                          for r in rows)
+        except Exception:
+            written = False
+        if sm is False:
+            if after.metadata_schema != before.metadata_schema or written:
+                bad.append((name, "touched although set_metadata=False"))
+        elif sm is True or can:
+            if not written:
+                bad.append((name, "mn/vr not written"))
+        else:
+            if written or after.metadata_schema != before.metadata_schema:
+                bad.append((name, "incompatible table was modified under set_metadata=None"))
+    return bool(bad), str(bad)
